@@ -127,7 +127,7 @@ T = [
 ("R6-C44",2,"dbms/query","TestDemoR6C44_2","child trigger throws during a cascade, caller catches and completes","missed","C44.4 (new): cascades run under recover→Abort→re-panic"),
 ]
 conf = {}
-for log in ("/tmp/seed/confirm.log", "/tmp/seed/confirm2.log", "/tmp/seed/confirm3.log", "/tmp/seed/confirm4.log", "/tmp/seed/confirm4a.log", "/tmp/seed/confirm4b.log", "/tmp/seed/confirm5.log", "/tmp/seed/confirm6.log", "/tmp/seed/confirm7a.log", "/tmp/seed/confirm7b.log", "/tmp/seed/confirm7c.log", "/tmp/seed/confirm8.log", "/tmp/seed/confirm9a.log", "/tmp/seed/confirm9b.log", "/tmp/seed/confirm10.log"):
+for log in ("/tmp/seed/confirm.log", "/tmp/seed/confirm2.log", "/tmp/seed/confirm3.log", "/tmp/seed/confirm4.log", "/tmp/seed/confirm4a.log", "/tmp/seed/confirm4b.log", "/tmp/seed/confirm5.log", "/tmp/seed/confirm6.log", "/tmp/seed/confirm7a.log", "/tmp/seed/confirm7b.log", "/tmp/seed/confirm7c.log", "/tmp/seed/confirm8.log", "/tmp/seed/confirm9a.log", "/tmp/seed/confirm9b.log", "/tmp/seed/confirm10.log", "/tmp/seed/confirm11a.log", "/tmp/seed/confirm11b.log"):
     if not os.path.exists(log): continue
     cur = None
     for l in open(log):
